@@ -2228,6 +2228,9 @@ func (vm *Thread) callNativeMethod(method *NativeMethod, argCount int) (err valu
 // set up the vm to execute a bytecode method with tail call optimisation
 func (vm *Thread) callBytecodeFunctionTCO(method *BytecodeFunction, argCount int) {
 	vm.populateMissingParametersOnStack(method.parameterCount, argCount)
+	// the frame is reused: locals captured by closures have to leave the stack
+	// before their slots are overwritten with the arguments
+	vm.opCloseUpvalues(vm.fp)
 
 	localCount := method.parameterCount + 1
 	for i := range localCount {
